@@ -181,6 +181,9 @@ def sparse_driver(ctx, r_st, r_cov, fn, reg):
 
 
 def colouring(ctx):
+    from .. import misc_guards
+
+    misc_guards.colour_sentinel(ctx)
     m = ctx.repo.mod(SP)
     r = ctx.rule("PAR-COLOUR", "colour map: an element's colour differs from every element sharing one of its global dofs; elements are grouped by equal colour", 3)
     fn = m.fn("FunctionSpace._compute_color_map")
